@@ -97,6 +97,11 @@ def main():
                    "salt and iteration count, each against a server that knows the old or the new password; both mechanisms, "
                    "usernames with and without escapes; seed %d" % a.seed,
           "failures": fails, "replay": {"script": REPLAY_SEQ % a.seed}})
+    n, fails = honest_logins(a.tier)
+    emit({"name": "scram-many-honest-logins", "exhaustive": False, "cases": n, "distinct_nontrivial": n,
+          "bound": "%d honest logins per mechanism with enumerated salts, 7 passwords, iteration counts 1..3: each must complete and "
+                   "be accepted (digest-value dependent faults, e.g. a leading zero byte, show about once in 256 logins)" % (n // 2),
+          "failures": fails, "replay": {"script": REPLAY_MANY}})
     n, fails = handshakes(a.tier, a.seed)
     emit({"name": "sasl-handshake-vs-rfc5802-server", "exhaustive": False, "cases": n, "distinct_nontrivial": n,
           "bound": "the real AIOKafkaConnection._do_sasl_handshake (send / _send_sasl_token answered by the RFC 5802 server): both "
@@ -132,6 +137,27 @@ def login_sequences(tier, seed):
                                           "server_knows": server_pw, "outcome": out, "server_accepted": srv.accepted})
                             if len(fails) >= 10:
                                 return n, fails
+    return n, fails
+
+
+def honest_logins(tier):
+    """'a server knowing the password accepts' for MANY different proofs: a fault that depends on the value of a digest (a
+    leading zero byte of ClientProof or of a signature, 1 login in 256) needs thousands of logins to show; salts and
+    passwords are enumerated, iteration count 1..3 (cheap), both mechanisms"""
+    fails, n = [], 0
+    count = 1500 if tier == "quick" else 20000
+    for mech in ("SCRAM-SHA-256", "SCRAM-SHA-512"):
+        for i in range(count):
+            salt = i.to_bytes(4, "big") + b"s"
+            pw = "pw%d" % (i % 7)
+            srv = Server(mech, {"user": pw}, salt, 1 + i % 3)
+            out = exchange(mech, "user", pw, srv)
+            n += 1
+            if out != "completed" or not srv.accepted:
+                fails.append({"mechanism": mech, "salt": salt.hex(), "password": pw, "iterations": 1 + i % 3, "outcome": out,
+                              "server_accepted": srv.accepted})
+                if len(fails) >= 10:
+                    return n, fails
     return n, fails
 
 
@@ -197,6 +223,15 @@ def handshakes(tier, seed):
                                       "outcome": out, "server_accepted": srv.accepted})
     return n, fails
 
+
+REPLAY_MANY = '''
+import sys, logging
+logging.disable(logging.CRITICAL)
+sys.path.insert(0, "/verif")
+from bounded import C18
+n, fails = C18.honest_logins("quick")
+VIOLATED = bool(fails); DETAIL = "%d of %d honest logins were not completed / accepted; first: %r" % (len(fails), n, fails[:1])
+'''
 
 REPLAY_HS = '''
 import sys, logging
